@@ -156,6 +156,34 @@ def max_selset(schema, sels):
     return m
 
 
+def max_keylen(sels):
+    m = 2
+    for sel in sels:
+        if sel.kind == 'field':
+            m = max(m, len(sel.key))
+        if sel.sels:
+            m = max(m, max_keylen(sel.sels))
+    return m
+
+
+def max_input_keylen(schema, op):
+    m = max([len(v.name) for v in op.vars] + [2])
+    seen = set()
+
+    def walk(name):
+        nonlocal m
+        td = schema.get(name)
+        if td is None or td.kind != 'input' or name in seen:
+            return
+        seen.add(name)
+        for fd in td.fields:
+            m = max(m, len(fd.name))
+            walk(fd.type.named())
+    for vd in op.vars:
+        walk(vd.type.named())
+    return m
+
+
 def max_input_width(schema, op):
     m = len(op.vars)
     seen = set()
@@ -179,7 +207,7 @@ class Crate:
         self.dst = dst
         self.repo = repo
         self.tier = tier
-        self.entries = gen.load_catalogue(only)
+        self.entries = [e for e in gen.load_catalogue(only) if tier == 'thorough' or e.get('tier', 'quick') == 'quick']
         self.mods = []        # rust source chunks
         self.harnesses = []   # dicts: name, prop, kind, unwind, entry, ...
         self.native = []      # (name, rust expr body)
@@ -253,7 +281,7 @@ fn k_{prop}_dist_{hn}() {{
 }}
 ''')
                         self.harnesses.append(dict(name=f'k_{prop}_{hn}', prop=prop, kind='enum', entry=entry['name'], native=f'n_{hn}',
-                                                   what=f'enum {en} ({len(vals)} values) in {op.name}, variant {variant}', covers=2))
+                                                   what=f'enum {en} ({len(vals)} values) in {op.name}, variant {variant}', covers=2, unwind=unwind))
                         self.harnesses.append(dict(name=f'k_{prop}_dist_{hn}', prop=prop, kind='enum_distinct', entry=entry['name'], native=f'n_dist_{hn}',
                                                    what=f'enum {en} distinctness in {op.name}, variant {variant}', covers=0))
                         self.native.append((f'n_{hn}', f'''{{
@@ -282,7 +310,8 @@ fn k_{prop}_dist_{hn}() {{
                     self.skipped.append((entry['name'], op.name, 'response', str(ex)))
                     continue
                 self.mods.append(code)
-                unwind = max(max_selset(schema, op.sels) + 3, b.maxlist + 2, b.strlen + 2)
+                evl = max([len(v) for en in used_enums(schema, doc, op) for v in schema.get(en).values] + [0])
+                unwind = max(max_selset(schema, op.sels) + 3, b.maxlist + 2, b.strlen + 2, evl + 2, max_keylen(op.sels) + 2)
                 for variant in variants(entry):
                     if variant in entry.get('skip_variants', []):
                         continue
@@ -301,7 +330,7 @@ fn k_{prop}_{hn}() {{
 }}
 ''')
                         self.harnesses.append(dict(name=f'k_{prop}_{hn}', prop=prop, kind='response', entry=entry['name'], native=f'n_{hn}',
-                                                   what=f'{op.name} ResponseData, variant {variant}, {len(sites)} corruption sites', sites=sites, covers=2))
+                                                   what=f'{op.name} ResponseData, variant {variant}, {len(sites)} corruption sites', sites=sites, covers=2, unwind=unwind))
                     self.native.append((f'n_{hn}', f'''b_{bn}(src, |sv, c| {{
     let model = check_roundtrip::<{t}>(sv, c, false);
     let (real, detail) = check_roundtrip_native::<{t}>(sv, c, false);
@@ -328,7 +357,8 @@ fn k_{prop}_{hn}() {{
                             continue
                         self.mods.append(code)
                     t = self.tpath(entry, variant, op, 'Variables')
-                    unwind = max(max_input_width(schema, op) + 3, b.maxlist + 2, b.strlen + 2)
+                    evl = max([len(v) for en in used_enums(schema, doc, op) for v in schema.get(en).values] + [0])
+                    unwind = max(max_input_width(schema, op) + 3, b.maxlist + 2, b.strlen + 2, evl + 2, max_input_keylen(schema, op) + 2)
                     hn = f'vars_{entry["name"]}_{gen.snake(op.name)}_{variant}'
                     self.mods.append(f'''
 #[cfg(kani)]
@@ -341,7 +371,7 @@ fn k_{prop}_{hn}() {{
 }}
 ''')
                     self.harnesses.append(dict(name=f'k_{prop}_{hn}', prop=prop, kind='variables', entry=entry['name'], native=f'n_{hn}',
-                                               what=f'{op.name} Variables ({len(op.vars)} variables), variant {variant}', covers=1))
+                                               what=f'{op.name} Variables ({len(op.vars)} variables), variant {variant}', covers=1, unwind=unwind))
                     self.native.append((f'n_{hn}', f'''b_{bn}(src, |sv, c, vac| {{
     if vac {{ return ("Ok".to_string(), "Ok".to_string(), "vacuous".to_string()); }}
     let model = check_roundtrip::<{t}>(sv, c, true);
